@@ -61,7 +61,7 @@ func runC05(t *testing.T, s c05Scn) (x nExec) {
 	res := inBubble(t, func(b *bubble) {
 		n := s.N
 		settleT := c05Settle(n)
-		cfg := clusterCfg{N: n, Opts: c05Opts, L0: time.Millisecond, LatAlt: []time.Duration{700 * time.Millisecond}, AllowDrop: true, AllowDup: true, StreamAlt: true,
+		cfg := clusterCfg{N: n, Opts: c05Opts, L0: time.Millisecond, LatAlt: []time.Duration{700 * time.Millisecond}, AllowDrop: true, AllowDup: true, StreamAlt: true, StreamCut: 60,
 			FaultFrom: c05FaultFrom, FaultTo: c05FaultTo, Horizon: c05FaultTo + settleT, Monitor: s.Monitor}
 		c := newCluster(t, b, cfg, ch)
 		for i := 0; i < n; i++ {
